@@ -139,13 +139,15 @@ func registerCensus(r *lib.Run) {
 			return constsOfLogging()
 		case "pool":
 			return poolSites()
+		case "stdlib":
+			return stdlibCalls()
 		}
 		panic("harness: unknown census " + a[0])
 	})
 }
 
 func censusCases(g *gen) {
-	for _, k := range []string{"line", "logger", "fastlog", "consts", "pool"} {
+	for _, k := range []string{"line", "logger", "fastlog", "consts", "pool", "stdlib"} {
 		g.r.Do("census", k)
 	}
 }
